@@ -4,7 +4,7 @@
 export GOFLAGS=-mod=mod GOPROXY=off GOSUMDB=off GOTOOLCHAIN=local
 unset GOWORK
 cd /verif/vcheck || exit 2
-if [ ! -x /verif/bin/vcheck ] || [ -n "$(find . -name '*.go' -newer /verif/bin/vcheck 2>/dev/null)" ]; then
+if [ ! -x /verif/bin/vcheck ] || [ -n "$(find . \( -name '*.go' -o -name 'reference.json' \) -newer /verif/bin/vcheck 2>/dev/null)" ]; then
   go build -o /verif/bin/vcheck . || exit 2
 fi
 cd /verif
